@@ -79,11 +79,56 @@ def _has_input_name_or_obj(
     return False
 
 
+def _nested_graphs_of(node: ir.Node) -> List[ir.Graph]:
+    graphs: List[ir.Graph] = []
+    for attr in node.attributes.values():
+        if attr.type is ir.AttributeType.GRAPH:
+            child = attr.as_graph()
+            if child is not None:
+                graphs.append(child)
+        elif attr.type is ir.AttributeType.GRAPHS:
+            graphs.extend(attr.as_graphs())
+    return graphs
+
+
+def _capturing_nodes(
+    nodes: Sequence[ir.Node], nested_consumers: Sequence[ir.Node]
+) -> List[ir.Node]:
+    """Nodes of ``nodes`` whose nested graphs contain one of ``nested_consumers``.
+
+    A control-flow body that captures an outer-scope value observes it just like
+    a direct consumer does, so the enclosing Loop/If/Scan node counts as one.
+    """
+    wanted = {id(node) for node in nested_consumers}
+    if not wanted:
+        return []
+
+    def _contains(graph: ir.Graph) -> bool:
+        for child in graph:
+            if id(child) in wanted:
+                return True
+            if any(_contains(sub) for sub in _nested_graphs_of(child)):
+                return True
+        return False
+
+    return [
+        node
+        for node in nodes
+        if any(_contains(sub) for sub in _nested_graphs_of(node))
+    ]
+
+
 def _consumer_nodes(
-    nodes: Sequence[ir.Node], value_or_name: Union[ir.Value, str, None]
+    nodes: Sequence[ir.Node],
+    value_or_name: Union[ir.Value, str, None],
+    *,
+    include_captures: bool = True,
 ) -> List[ir.Node]:
     """
     Return consumer nodes for a value, preferring IR APIs with name-based fallback.
+
+    With ``include_captures`` a node of ``nodes`` whose nested graphs read the
+    value counts as a consumer as well.
     """
     if value_or_name is None:
         return []
@@ -94,6 +139,14 @@ def _consumer_nodes(
             try:
                 if all(isinstance(c, ir.Node) for c in consumers):
                     filtered = [c for c in consumers if id(c) in current_node_ids]
+                    nested = (
+                        [c for c in consumers if id(c) not in current_node_ids]
+                        if include_captures
+                        else []
+                    )
+                    for owner in _capturing_nodes(nodes, nested):
+                        if owner not in filtered:
+                            filtered.append(owner)
                     if filtered:
                         return list(filtered)
             except Exception:
